@@ -19,6 +19,7 @@ import sys
 import evolve
 import vcommon as V
 
+LEVEL = "other"
 RULE = ("evolved metamodels: systematic families (new structures referencing every alias / enumeration / sample structures / base types in 6 "
         "contexts; rich property kinds; messages with and without typeName; keyword names; marks; enums; literal union members; removal of "
         "optional properties; identity) + seeded random edit sequences (<= 8 edits); for each: 4 plugins must succeed and the per-property "
@@ -215,6 +216,9 @@ def run(chk):
     chk.extra["evolved_models"] = [r["model"] for r in results]
     chk.extra["sub_checks_run"] = n_sub
     chk.extra["programs"] = len(results)
+    chk.extra["explanation"] = ("sampled programs x proved per-program obligations: %d evolved metamodels (systematic families exhaustive over their targets + "
+                                "seeded random edit sequences), each regenerated through the plugins in a scratch copy and subjected to %d runs of the Coq-backed "
+                                "sub-checks (%s); not a proof over the family of programs" % (len(results), n_sub, ", ".join(checks)))
     chk.sample({"model": results[0]["model"], "sub_checks": [s["check"] for s in results[0].get("subs", [])]} if results else {})
     for k, o in seen_known.items():
         chk.known("%s [%s]" % (o["text"][:160], o["key"]))
